@@ -2,8 +2,10 @@
 import json, os
 from .common import ROOT, I64_MIN, I64_MAX
 
+# incl. values that become small valid numbers when narrowed to 8 / 16 / 32 bits (257, 65537, 2^32 + 1, 2^32 + 2)
 BOUNDARY_WORDS = [I64_MIN, I64_MIN + 1, -(1 << 32), -65, -64, -2, -1, 0, 1, 2, 3, 7, 8, 9, 62, 63, 64, 65,
-                  255, 256, 4095, 4096, 4097, 10239, 10240, 10241, 1 << 31, 1 << 32, 1 << 62, I64_MAX - 1, I64_MAX]
+                  255, 256, 257, 4095, 4096, 4097, 10239, 10240, 10241, 65535, 65536, 65537, 1 << 31, 1 << 32, (1 << 32) + 1, (1 << 32) + 2,
+                  1 << 62, I64_MAX - 1, I64_MAX]
 
 
 def spec_rows():
